@@ -170,18 +170,7 @@ def run(prog, chk):
     ok = bool(pcall) and all(A.kwarg(x, "optimizeCFF") is not None and isinstance(A.kwarg(x, "optimizeCFF"), ast.Name) for x in pcall)
     chk.ob("R12.3", key(proc, "process_cff(optimizeCFF=...)"), ok, where(proc), detail="the thresholded value is what process_cff receives",
            message="process_cff does not receive the thresholded optimizeCFF")
-    # masters force NONE
-    co = ix.get_method(IOTF, "compileOutlines", own=True)
-    cfg = prog.cfg(co)
-    st = [s for s, t, v in subscript_stores(co) if A.is_const(t.slice, "optimizeCFF")]
-    ctor = [c for c in A.body_nodes(co.node) if isinstance(c, ast.Call) and isinstance(c.func, ast.Attribute) and c.func.attr == "outlineCompilerClass"]
-    need(ctor, f"cannot interpret {co.short}")
-    okn = bool(st) and all(T(v).endswith("CFFOptimization.NONE") for s, t, v in subscript_stores(co) if A.is_const(t.slice, "optimizeCFF"))
-    okd = bool(st) and all(cfg.dominates(cfg.node_of(st[-1]), cfg.node_of(c)) for c in ctor)
-    same = bool(st) and all(any(k.arg is None and T(k.value) == T(subscript_stores(co)[0][1].value) for k in c.keywords) for c in ctor)
-    chk.ob("R12.3", key(co, "masters compiled with CFFOptimization.NONE"), okn and okd and same, where(co),
-           detail=f"kwargs['optimizeCFF'] = NONE dominates the outline-compiler construction: {okd}",
-           message="interpolatable OTF masters are no longer forced to CFFOptimization.NONE (specialised charstrings are not interpolatable)")
+    masters_force_none(prog, chk, "R12.3")
     chk.minimum("R12.3", 7)
 
     # ---- R12.5 what is drawn does not depend on the encoding options
@@ -224,6 +213,23 @@ def run(prog, chk):
     chk.guard(check_forwarding, prog, chk, "R12.4")
     chk.minimum("R12.4", 15)
     chk.guard(r126, prog, chk)
+
+
+def masters_force_none(prog, chk, rule):
+    """Interpolatable OTF masters are compiled with CFFOptimization.NONE whatever the compiler's own option says
+    (that option is meant for the merge step).  Shared with C09 (R09.9)."""
+    ix = prog.ix
+    co = ix.get_method(IOTF, "compileOutlines", own=True)
+    cfg = prog.cfg(co)
+    st = [s for s, t, v in subscript_stores(co) if A.is_const(t.slice, "optimizeCFF")]
+    ctor = [c for c in A.body_nodes(co.node) if isinstance(c, ast.Call) and isinstance(c.func, ast.Attribute) and c.func.attr == "outlineCompilerClass"]
+    need(ctor, f"cannot interpret {co.short}")
+    okn = bool(st) and all(T(v).endswith("CFFOptimization.NONE") for s, t, v in subscript_stores(co) if A.is_const(t.slice, "optimizeCFF"))
+    okd = bool(st) and all(cfg.dominates(cfg.node_of(st[-1]), cfg.node_of(c)) for c in ctor)
+    same = bool(st) and all(any(k.arg is None and T(k.value) == T(subscript_stores(co)[0][1].value) for k in c.keywords) for c in ctor)
+    chk.ob(rule, key(co, "masters compiled with CFFOptimization.NONE"), okn and okd and same, where(co),
+           detail=f"kwargs['optimizeCFF'] = NONE dominates the outline-compiler construction: {okd}",
+           message="interpolatable OTF masters are no longer forced to CFFOptimization.NONE (specialised charstrings are not interpolatable)")
 
 
 def r126(prog, chk):
